@@ -99,4 +99,4 @@ def run(v, sim=hgsim, prop=PROP, coq_import=COQ_IMPORT, proj=PROJ, oracle_histor
 
 
 def replay(payload):
-    ops = HC.load_corpus.__globals__["json"] and None
+    return HC.replay_history(PROP, hgsim, payload, COQ_IMPORT, PROJ, oracle_history)
